@@ -62,6 +62,7 @@ type c28Input struct {
 	Buffer         int             `json:"buffer"`
 	PctFollow      int             `json:"pct_follow"`     // % of events emitted as follow-ups
 	PctLazy        int             `json:"pct_lazy"`       // % of events emitted through the lazy variants
+	PctNil         int             `json:"pct_nil"`        // % of plain lazy events whose builder returns a nil payload (anonymous on the wire)
 	PctOddParent   int             `json:"pct_odd_parent"` // % of follow-ups whose parent is not the emitter's latest id (other emitter's / oldest / InvalidID)
 	PayloadMax     int             `json:"payload_max"`
 	Burst          int             `json:"burst"`            // emitter pauses after every Burst events ...
@@ -134,6 +135,7 @@ func c28Gen(rt *rapid.T) c28Input {
 	in.Buffer = rapid.OneOf(rapid.IntRange(1, 4), rapid.IntRange(1, 64), rapid.IntRange(16, 64)).Draw(rt, "buffer")
 	in.PctFollow = rapid.OneOf(rapid.Just(0), rapid.IntRange(0, 70), rapid.IntRange(10, 70)).Draw(rt, "pct_follow")
 	in.PctLazy = rapid.OneOf(rapid.Just(0), rapid.IntRange(0, 70), rapid.IntRange(10, 70)).Draw(rt, "pct_lazy")
+	in.PctNil = rapid.SampledFrom([]int{0, 0, 10, 30}).Draw(rt, "pct_nil")
 	in.PctOddParent = rapid.IntRange(0, 40).Draw(rt, "pct_odd_parent")
 	in.PayloadMax = rapid.OneOf(rapid.IntRange(0, 48), rapid.IntRange(0, 1500)).Draw(rt, "payload_max")
 	in.Burst = rapid.OneOf(rapid.Just(1), rapid.IntRange(1, 6), rapid.IntRange(1, 6), rapid.IntRange(1, 40)).Draw(rt, "burst")
@@ -182,6 +184,7 @@ func c28Sanitize(in c28Input) c28Input {
 	in.Buffer = c28Clamp(in.Buffer, 1, 64)
 	in.PctFollow = c28Clamp(in.PctFollow, 0, 100)
 	in.PctLazy = c28Clamp(in.PctLazy, 0, 100)
+	in.PctNil = c28Clamp(in.PctNil, 0, 100)
 	in.PctOddParent = c28Clamp(in.PctOddParent, 0, 100)
 	in.PayloadMax = c28Clamp(in.PayloadMax, 0, 4000)
 	in.Burst = c28Clamp(in.Burst, 1, 1000)
@@ -263,6 +266,9 @@ func c28PlanOf(in *c28Input, e, i int) c28Plan {
 		p.parentSel = 1 + int((h>>24)%3)
 	}
 	p.pad = int((h >> 32) % uint64(in.PayloadMax+1))
+	if p.kind == 1 && int((h>>52)%100) < in.PctNil {
+		p.pad = -1 // plain lazy event whose builder yields nil: an event frame with an empty payload
+	}
 	// discriminator: never 0 (reserved for Dropped); its two low bits carry the kind so the
 	// receiver knows whether a parent-seq prefix precedes the payload
 	p.disc = uint8(4*(1+int((h>>44)%63)) + p.kind)
@@ -618,7 +624,12 @@ func c28EmitCall(cl *tcpClient, kind int, disc uint8, parent uint64, e, i, pad i
 	case c28KindEmit:
 		return cl.Emit(disc, c28Payload(e, i, kind, 0, pad))
 	case c28KindLazy:
-		return cl.EmitLazy(disc, func() []byte { return c28Payload(e, i, kind, 0, pad) })
+		return cl.EmitLazy(disc, func() []byte {
+			if pad < 0 {
+				return nil
+			}
+			return c28Payload(e, i, kind, 0, pad)
+		})
 	case c28KindFollow:
 		return cl.EmitFollowup(disc, parent, c28Payload(e, i, kind, parent, pad))
 	default:
@@ -1082,6 +1093,29 @@ func (h *c28Harness) analyse(res *c28Result, leaked bool) {
 				}
 				wireParent = binary.LittleEndian.Uint64(pl)
 				pl = pl[8:]
+			}
+			if kind == 1 && len(pl) == 0 {
+				// anonymous event (lazy builder returned nil): it still occupies one event ID, which must
+				// be one that Emit* returned for such an event (of this connection's epoch once known)
+				okID := false
+				for e2 := range h.ems {
+					for i2, id2 := range h.ems[e2].ids {
+						if id2 != InvalidID && eventIDSeqRef(id2) == counter && (v.epoch == -1 || int(eventIDEpochRef(id2)) == v.epoch) && c28PlanOf(in, e2, i2).pad < 0 {
+							okID = true
+						}
+					}
+				}
+				fr.e, fr.i = -1, -1
+				v.frames = append(v.frames, fr)
+				if !okID {
+					fail(v, len(v.frames)-1, "MISALIGNED: connection %d: an empty-payload event is numbered %d by the receiver but no nil-payload emit received that ID", v.idx, counter)
+					return
+				}
+				lazyDelivered++
+				counter++
+				v.events++
+				off += 4 + fl
+				continue
 			}
 			if len(pl) < c28HdrLen || pl[0] != 0xC2 || pl[1] != 0x8E {
 				fail(v, len(v.frames), "connection %d: frame at offset %d (disc %d) does not carry a harness payload: % x", v.idx, off, disc, c28Head(pl, 24))
@@ -1570,5 +1604,8 @@ func TestVerif_C28(t *testing.T) {
 	}
 	if only == "" || only == "stress" || s.Replaying() {
 		kit.Run(s, "receiver_oracle_under_stress", kit.N{Quick: 1000, Thorough: 40000}, c28Gen, c28Check)
+	}
+	if only == "" || only == "flap" || s.Replaying() {
+		c28RunFlap(s)
 	}
 }
